@@ -1,6 +1,6 @@
 # helpers shared by the per-property rule modules
 import re, collections
-from .core import Item, norm, relloc, Tracer, live, evs, calls, fmt_trace, Broken, cond_event, local_env, subst_path
+from .core import Item, norm, relloc, Tracer, live, evs, calls, fmt_trace, Broken, cond_event, local_env, subst_path, find_ev
 
 
 def inline_only(*names):
@@ -614,3 +614,50 @@ def origin_in_trace(tr, idx, path, maxsteps=8):
             continue
         return path, idx
     return path, idx
+
+
+NULLS = ('nullptr', 'ctor(nullptr)', '0', 'false', 'ctor()', '{}')
+
+
+def null_test(tr, i):
+    """(object path, is_nonnull) when branch item tr[i] tests a pointer-like object for null, in any of the source forms:
+    if (p), if (!p), if (p != nullptr), if (nullptr == p), if (h) / if (h != nullptr) on a coroutine_handle, shared_ptr, unique_ptr, promise ..."""
+    br = tr[i]
+    if br.k != 'branch':
+        return None
+    ce = cond_event(tr, i)
+    if ce is not None and ce.k == 'call' and ce.get('recv'):
+        c = norm(ce.get('callee') or '')
+        if c.endswith('::operator bool'):
+            return (ce['recv'], bool(br.val))
+        if c.endswith('::operator!'):
+            return (ce['recv'], not br.val)
+    if ce is not None and ce.k == 'cmp' and ce.get('op') in ('==', '!='):
+        l_, r_ = ce.get('lhs') or '', ce.get('rhs') or ''
+        side = None
+        if r_ in NULLS and l_ not in NULLS:
+            side = ('lhs', l_)
+        elif l_ in NULLS and r_ not in NULLS:
+            side = ('rhs', r_)
+        if side:
+            obj = side[1]
+            if obj.startswith('call(') and ce.get(side[0] + '_ev') is not None:
+                # comparison of a converted object (coroutine_handle<P> -> coroutine_handle<>): the object is the receiver of the conversion
+                oe = find_ev(tr, i, ce[side[0] + '_ev'], br.get('rcond_fn') or br.fn, br.get('rcond_depth', br.depth))
+                for _ in range(3):
+                    if oe is not None and oe.k == 'construct' and oe.get('args') and oe['args'][0].get('ev') is not None:
+                        oe = find_ev(tr, i, oe['args'][0]['ev'], br.get('rcond_fn') or br.fn, br.get('rcond_depth', br.depth))
+                    else:
+                        break
+                if oe is not None and oe.k == 'call' and oe.get('recv') and '::operator ' in norm(oe.get('callee') or ''):
+                    obj = oe['recv']
+            if obj.startswith('call(') and '::operator ' in obj:
+                # rewritten comparison (operator== synthesised from <=> / reversed): no operand link, take the latest such conversion before the branch
+                oe = next((x for x in reversed(tr[:i]) if x.k == 'call' and x.get('recv') and 'call(%s)' % norm(x.get('callee') or '') == obj and x.get('depth', 0) == br.get('depth', 0)), None)
+                if oe is not None:
+                    obj = oe['recv']
+            m_ = re.fullmatch(r'(?:ctor|move)\((.+)\)', obj)
+            if m_ and m_.group(1) not in NULLS:
+                obj = m_.group(1)          # a copy of the handle compared: the test is about the handle
+            return (obj, bool(br.val) if ce['op'] == '!=' else (not br.val))
+    return nullness(br)
